@@ -84,6 +84,13 @@ def _abstract_bitop(func):
         if isinstance(st, ast.Expr) and isinstance(st.value, ast.Call) and isinstance(st.value.func, ast.Attribute) and st.value.func.attr == "extend":
             tgt = norm(st.value.func.value)
             arg = st.value.args[0]
+            # prefix as a comprehension: result.blocks.extend([a OP b for a, b in zip(self.blocks, other.blocks)])
+            if not inplace and isinstance(arg, (ast.ListComp, ast.GeneratorExp)) and len(arg.generators) == 1 and not arg.generators[0].ifs \
+                    and norm(arg.generators[0].iter) in ("zip(%s.blocks, %s.blocks)" % (selfn, othern), "zip(%s.blocks, %s.blocks)" % (othern, selfn)) \
+                    and isinstance(arg.elt, ast.BinOp) and tgt == "%s.blocks" % resultvar and isinstance(arg.generators[0].target, ast.Tuple) \
+                    and {norm(arg.elt.left), norm(arg.elt.right)} == {norm(x) for x in arg.generators[0].target.elts} and res["prefix"] is None:
+                res["prefix"] = type(arg.elt.op).__name__
+                continue
             if isinstance(arg, ast.Subscript) and isinstance(arg.slice, ast.Slice) and arg.slice.upper is None and arg.slice.lower is not None:
                 whose = "self" if norm(arg.value) == "%s.blocks" % selfn else "other" if norm(arg.value) == "%s.blocks" % othern else None
                 frm = al.get(norm(arg.slice.lower))
